@@ -54,6 +54,10 @@ class dtype:
     def __hash__(self):
         return hash(self.kind)
 
+    @property
+    def itemsize(self):
+        return {"b": 1, "i": 8, "f": 8}.get(self.kind, 8)
+
     def __repr__(self):
         return {"b": "dtype('bool')", "i": "dtype('int64')", "f": "dtype('float64')", "U": "dtype('<U')",
                 "O": "dtype('O')"}[self.kind]
@@ -560,10 +564,14 @@ class ndarray:  # noqa: F811
     def copy(self):
         return ndarray.new(self.data, self.shape, self._dt)
 
-    def flatten(self):
+    def flatten(self, order="C"):
+        if order != "C":
+            return ravel(self, order).copy()
         return ndarray.new(self.data, (self.size,), self._dt)
 
-    def ravel(self):
+    def ravel(self, order="C"):
+        if order != "C":
+            return ravel(self, order)
         return ndarray(self.buf, list(self.ix), (self.size,), self._dt)
 
     def reshape(self, *shape):
@@ -831,8 +839,93 @@ def reshape(a, shape=None, newshape=None):
     return ndarray(a.buf, list(a.ix), tuple(shape), a._dt)
 
 
-def ravel(a):
-    return asarray(a).ravel()
+def ravel(a, order="C"):
+    a = asarray(a)
+    if order == "C":
+        return a.ravel()
+    if order == "F":
+        return transpose(a).ravel()
+    # "K"/"A": memory order — elements in the order of their position in the underlying buffer
+    if order in ("K", "A"):
+        srt = sorted(a.ix)
+        if len(set(srt)) != len(srt):
+            return a.ravel()      # broadcast views: fall back to C order like NumPy does for non-unique strides
+        return ndarray(a.buf, srt, (a.size,), a._dt)
+    raise ValueError(f"order must be one of 'C', 'F', 'A', or 'K' (got {order!r})")
+
+
+def insert(arr, obj, values, axis=None):
+    a = asarray(arr)
+    if axis is not None and a.ndim != 1:
+        raise Unsupported("insert along axis of nd array")
+    cells = a.ravel().data
+    idx = asarray(obj)
+    vals = asarray(values)
+    if idx.ndim == 0:
+        ids = [idx.data[0]] * max(vals.size, 1)
+        vs = vals.ravel().data if vals.size else []
+    else:
+        ids = idx.data
+        vs = broadcast_to(vals, idx.shape).data if vals.shape != idx.shape else vals.data
+    n = len(cells)
+    ids = [concretize_int(i, cap=n + 2) if is_sym(i) else int(i) for i in ids]
+    ids = [i + n if i < 0 else i for i in ids]
+    for i in ids:
+        if not 0 <= i <= n:
+            raise IndexError(f"index {i} is out of bounds for axis 0 with size {n}")
+    k = a.kind
+    out = []
+    for j in range(n + 1):
+        for i, v in zip(ids, vs):
+            if i == j:
+                out.append(v if is_special(v) and k == "f" else _cast(v, k) if k in "bif" else v)   # values are cast to arr's dtype
+        if j < n:
+            out.append(cells[j])
+    return ndarray.new(out, (len(out),), a._dt if a._dt else k)
+
+
+def append(arr, values, axis=None):
+    if axis is not None:
+        return concatenate([arr, values], axis=axis)
+    return concatenate([asarray(arr).ravel(), asarray(values).ravel()])
+
+
+def delete(arr, obj, axis=None):
+    a = asarray(arr)
+    if a.ndim != 1:
+        raise Unsupported("delete on nd array")
+    ids = asarray(obj)
+    ids = [int(i) if not is_sym(i) else concretize_int(i) for i in (ids.data if ids.ndim else [ids.data[0]])]
+    n = a.size
+    ids = {i + n if i < 0 else i for i in ids}
+    return ndarray.new([c for j, c in enumerate(a.data) if j not in ids], (n - len([i for i in ids if 0 <= i < n]),), a._dt)
+
+
+class _FInfo:
+    eps = Fraction(2) ** -52
+    max = Fraction(_math.ldexp(1.0, 1023)) * (2 - Fraction(2) ** -52)
+    min = -max
+    tiny = smallest_normal = Fraction(2) ** -1022
+    resolution = Fraction(1, 10 ** 15)
+
+
+def finfo(t=float):
+    if _dt(t) != "f":
+        raise ValueError("finfo of a non-float dtype")
+    return _FInfo()
+
+
+class _IInfo:
+    max = 2 ** 63 - 1
+    min = -2 ** 63
+
+
+def iinfo(t=int):
+    return _IInfo()
+
+
+def can_cast(from_, to, casting="safe"):
+    raise Unsupported("np.can_cast (dtype widths are not modelled)")
 
 
 def squeeze(a, axis=None):
